@@ -29,7 +29,8 @@ CHECKS = {
        "init/cleanup run exactly once around all tests; for every cut of the trace inside a test the highest "
        "'*-interesting' copy (else 'original') equals the last accepted version. One corner (a strategy that "
        "writes the file itself and raises before any candidate was tested) is proved NOT restored "
-       "(C02_abort_restores_unrestricted_refuted) and shown unreachable for shipped strategies. Correspondence: "
+       "(C02_abort_restores_unrestricted_refuted); C02_minimize_like_restores proves it unreachable for minimize and "
+       "minimize-collapse-brace (the only shipped strategy that writes the file itself). Correspondence: "
        "aborts with 6 exception classes at every test index of explored runs.",
   note=TB + "Durability of already-written temp files under SIGKILL and the atomicity of writes are OS behaviour the model "
        "assumes (partial for the kill half); cleanup() itself raising is outside the property.",
@@ -123,12 +124,15 @@ CHECKS = {
   text="C09_minimize_like (minimize and minimize-collapse-brace via the post-round callback), C09_pairs (minimize-around, "
        "minimize-balanced): Coq theorems that for EVERY verdict function (inconsistent answers included), clock and valid option setting "
        "the run neither exhausts fuel nor fails internally (balanced's assert, index errors, the bounded skip loop are proved "
-       "unreachable) and performs at most (n+1)(n+ceil(log2 n)+2)+1 tests (potential-function proofs). The post_ok side condition "
-       "for collapse-brace is proved for line mode (C05 file). The rewriting strategies are NOT proved: replace-arguments-by-globals "
-       "violates the bound (known finding, concrete replay), replace-properties is explored only. Tie: trace correspondence incl. "
+       "unreachable) and performs at most (n+1)(n+ceil(log2 n)+2)+1 tests (potential-function proofs). C09_collapse_line proves the "
+       "bound end to end for minimize-collapse-brace on every file loaded in line mode (the atoms stay lines, so the re-split never "
+       "adds atoms). The rewriting strategies: only their OUTER loops are modelled over an abstract pass "
+       "(Rewriters.v): C09_replace_properties_partial bounds the tests RELATIVE to two interface facts about the pass (monitored, not "
+       "proved of the code); C09_replace_arguments_refuted proves the outer loop of replace-arguments unbounded, and the concrete replay on "
+       "the implementation is a known finding. Tie: trace correspondence incl. "
        "worst-case search by DFS and adversarial long inputs.",
-  note=TB + "Partial: replace-properties-by-globals / replace-arguments-by-globals have no Coq model of their passes (bound explored with a "
-       "test cap); collapse-brace's 're-split does not grow' is proved for the line splitter only.",
+  note=TB + "Partial: replace-properties-by-globals / replace-arguments-by-globals have no Coq model of their passes (outer loops only; the bound "
+       "is explored with a test cap); collapse-brace end to end is proved for the line splitter only (other splitters: side condition post_ok, explored).",
   tech="Coq proof (potential functions) for 4 chunk strategies + capped exploration for the 2 rewriters",
   ref="4/C09"),
  "C13": dict(
